@@ -338,7 +338,7 @@ func init() {
 					w.Disk.Walk("/", func(p string, n *core.Node) {
 						if strings.HasSuffix(p, ".dat") {
 							for _, rec := range parseDat(n.Ino.Data) {
-								fmt.Printf("  %s off=%d size=%d b=%q k=%q tx=%d status=%d flag=%d\n", p, rec.off, rec.size, rec.bucket, rec.key, rec.txid, n.Ino.Data[rec.off+30], n.Ino.Data[rec.off+20])
+								fmt.Printf("  %s off=%d size=%d b=%q k=%q tx=%d status=%d flag=%d ttl=%d ts=%d now=%d ns=%d\n", p, rec.off, rec.size, rec.bucket, rec.key, rec.txid, n.Ino.Data[rec.off+30], n.Ino.Data[rec.off+20], rec.ttl, rec.ts, w.Clock.Unix(), w.Clock.NowNS())
 							}
 						}
 					})
@@ -366,6 +366,16 @@ func init() {
 						okAny := false
 						for variant := 0; variant < 2 && !okAny; variant++ {
 							exp := expectedAfterDamage(img, dmg, variant, w.Clock.Unix())
+							if os.Getenv("NUTSIM_DEBUG") != "" {
+								for k, v := range exp {
+									if v == nil {
+										fmt.Printf("   exp[%d] %q = <absent>\n", variant, k)
+									} else {
+										fmt.Printf("   exp[%d] %q = %q\n", variant, k, *v)
+									}
+								}
+								fmt.Printf("   now=%d ns=%d when=%s\n", w.Clock.Unix(), w.Clock.NowNS(), when)
+							}
 							bad := ""
 							for j, op := range rr.ObsOps {
 								if op.K != "get" {
